@@ -10,3 +10,5 @@ template class ST::buffer<char>;
 template class ST::buffer<wchar_t>;
 template class ST::buffer<char16_t>;
 template class ST::buffer<char32_t>;
+template class _ST_PRIVATE::ostream_format_writer<char, std::char_traits<char>>;
+template class _ST_PRIVATE::ostream_format_writer<wchar_t, std::char_traits<wchar_t>>;
